@@ -167,9 +167,15 @@ class TextureVisuals(Visuals):
         """
         if self.uv is not None:
             indices = np.unique(self.mesh.faces[face_index].flatten())
-            return self.copy(self.uv[indices])
+            result = self.copy(self.uv[indices])
         else:
-            return self.copy()
+            result = self.copy()
+        if self.face_materials is not None:
+            # one entry per face: take the entries of the subset
+            result.face_materials = np.asanyarray(self.face_materials)[
+                face_index
+            ].tolist()
+        return result
 
     def update_vertices(self, mask):
         """
@@ -199,9 +205,13 @@ class TextureVisuals(Visuals):
 
     def update_faces(self, mask):
         """
-        Apply a mask to remove or duplicate face properties,
-        not applicable to texture visuals.
+        Apply a mask to remove or duplicate face properties:
+        for texture visuals only the material index per face.
         """
+        if self.face_materials is not None:
+            self.face_materials = np.asanyarray(self.face_materials)[
+                np.asanyarray(mask)
+            ].tolist()
 
     def concatenate(self, others):
         """
